@@ -11,5 +11,6 @@ theorem sites : Gen.WriteSites.sites = Model.Purity.sites := by decide +kernel
 theorem selfAssigns : Gen.WriteSites.selfAssigns = Model.Purity.selfAssigns := by decide +kernel
 theorem globalState : Gen.WriteSites.globalState = Model.Purity.globalState := by decide +kernel
 theorem callArgs : Gen.WriteSites.callArgs = Model.Purity.callArgs := by decide +kernel
+theorem rngSites : Gen.WriteSites.rngSites = Model.Purity.rngSites := by decide +kernel
 
 end Lemmas.GenWriteSites
